@@ -7,7 +7,7 @@ package main
 //   genStateWrites : every assignment `<recv>.<field> = …` / `<recv>.<field> op= …` to such a field inside a method
 //                    of that struct (package dir, method, field, kind) with kind
 //                      "set"    – plain `=` whose right-hand side does not mention the field
-//                      "update" – the right-hand side mentions the field (append(g.f, …), g.f || x, …) or op=
+//                      "update" – the right-hand side detMentions the field (append(g.f, …), g.f || x, …) or op=
 //                    and every `&<recv>.<field>` (kind "addr": the field is handed to a callee that may reset it).
 //
 // Used by ShootVerif/Props/C08.lean: every field must be classified (config / reset / derived / carried) and the
@@ -29,7 +29,7 @@ import (
 type gsField struct{ pkg, strct, field, typ string }
 type gsWrite struct{ pkg, fn, field, kind string }
 
-func leanStr(s string) string {
+func detLeanStr(s string) string {
 	var b strings.Builder
 	b.WriteByte('"')
 	for _, r := range s {
@@ -50,13 +50,13 @@ func leanStr(s string) string {
 	return b.String()
 }
 
-func exprText(fset *token.FileSet, e ast.Node) string {
+func detExprText(fset *token.FileSet, e ast.Node) string {
 	var b bytes.Buffer
 	printer.Fprint(&b, fset, e)
 	return strings.Join(strings.Fields(b.String()), " ")
 }
 
-func mentions(e ast.Expr, recv, field string) bool {
+func detMentions(e ast.Expr, recv, field string) bool {
 	found := false
 	ast.Inspect(e, func(n ast.Node) bool {
 		if s, ok := n.(*ast.SelectorExpr); ok {
@@ -69,7 +69,7 @@ func mentions(e ast.Expr, recv, field string) bool {
 	return found
 }
 
-func isStateStruct(name string) bool { return name == "Generator" || name == "GeneratorBase" }
+func detIsStateStruct(name string) bool { return name == "Generator" || name == "GeneratorBase" }
 
 func emitGenState(repo string) {
 	dirs, _ := filepath.Glob(filepath.Join(repo, "internal", "*"))
@@ -109,12 +109,12 @@ func emitGenState(repo string) {
 				for _, sp := range gd.Specs {
 					ts := sp.(*ast.TypeSpec)
 					stt, ok := ts.Type.(*ast.StructType)
-					if !ok || !isStateStruct(ts.Name.Name) {
+					if !ok || !detIsStateStruct(ts.Name.Name) {
 						continue
 					}
 					own[ts.Name.Name] = map[string]bool{}
 					for _, fl := range stt.Fields.List {
-						ty := exprText(fset, fl.Type)
+						ty := detExprText(fset, fl.Type)
 						if len(fl.Names) == 0 {
 							nm := ty[strings.LastIndexAny(ty, ".*")+1:]
 							fields = append(fields, gsField{rel, ts.Name.Name, nm, ty})
@@ -190,7 +190,7 @@ func emitGenState(repo string) {
 							kind := "set"
 							if v.Tok != token.ASSIGN {
 								kind = "update"
-							} else if len(v.Rhs) == len(v.Lhs) && mentions(v.Rhs[i], recv, fld) {
+							} else if len(v.Rhs) == len(v.Lhs) && detMentions(v.Rhs[i], recv, fld) {
 								kind = "update"
 							}
 							writes = append(writes, gsWrite{rel, fn.Name.Name, fld, kind})
@@ -214,7 +214,7 @@ func emitGenState(repo string) {
 		if i == len(fields)-1 {
 			sep = ""
 		}
-		fmt.Printf("  (%s, %s, %s, %s)%s\n", leanStr(f.pkg), leanStr(f.strct), leanStr(f.field), leanStr(f.typ), sep)
+		fmt.Printf("  (%s, %s, %s, %s)%s\n", detLeanStr(f.pkg), detLeanStr(f.strct), detLeanStr(f.field), detLeanStr(f.typ), sep)
 	}
 	fmt.Println("]")
 	// de-duplicate writes (a method may assign a field several times)
@@ -246,7 +246,7 @@ func emitGenState(repo string) {
 		if i == len(ws)-1 {
 			sep = ""
 		}
-		fmt.Printf("  (%s, %s, %s, %s)%s\n", leanStr(w.pkg), leanStr(w.fn), leanStr(w.field), leanStr(w.kind), sep)
+		fmt.Printf("  (%s, %s, %s, %s)%s\n", detLeanStr(w.pkg), detLeanStr(w.fn), detLeanStr(w.field), detLeanStr(w.kind), sep)
 	}
 	fmt.Println("]")
 }
